@@ -417,21 +417,24 @@ theorem ls2ci_spec (ls : List (List Nat)) (z : Nat)
 /-! ## partition_distance over ℝ: `VIn`, `MIn` as the code computes them from the table
 
 `Hof c = -Σ_a (n_a/n) log (n_a/n)`, `Hjoint = -Σ_ab (n_ab/n) log (n_ab/n)`,
-`VIn = (2 Hxy - Hx - Hy) / log n`, `MIn = 2 (Hx + Hy - Hxy) / (Hx + Hy)` (modularity.py:1721-1731). -/
+`Vin = (2*Hxy - Hx - Hy) / np.log(n) if n > 1 else 0.0`,
+`Min = 2*(Hx + Hy - Hxy) / (Hx + Hy) if Hx + Hy > 0 else 1.0` (modularity.py, `partition_distance`, after commit 0c07c81). -/
 
 noncomputable section
 
 def Hof (c : Vector Int n) : ℝ := sizeSum (PartEntropy.f n) c
 def Hjoint (cx cy : Vector Int n) : ℝ := tableSum (PartEntropy.f n) cx cy
-def VIn (cx cy : Vector Int n) : ℝ := (2 * Hjoint cx cy - Hof cx - Hof cy) / Real.log n
-def MIn (cx cy : Vector Int n) : ℝ := 2 * (Hof cx + Hof cy - Hjoint cx cy) / (Hof cx + Hof cy)
+def VIn (cx cy : Vector Int n) : ℝ :=
+  if 1 < n then (2 * Hjoint cx cy - Hof cx - Hof cy) / Real.log n else 0
+def MIn (cx cy : Vector Int n) : ℝ :=
+  if 0 < Hof cx + Hof cy then 2 * (Hof cx + Hof cy - Hjoint cx cy) / (Hof cx + Hof cy) else 1
 
 /-- `partition_distance` is symmetric in its arguments -/
 theorem pd_symm (cx cy : Vector Int n) : VIn cy cx = VIn cx cy ∧ MIn cy cx = MIn cx cy := by
   unfold VIn MIn Hjoint
   rw [tableSum_symm]
   constructor
-  · ring
+  · split_ifs <;> ring
   · rw [add_comm (Hof cy) (Hof cx)]
 
 /-- `partition_distance` does not depend on the label values of either argument -/
@@ -501,41 +504,59 @@ theorem VI_eq (cx cy : Vector Int n) :
   unfold PartEntropy.VI
   rw [Hjoint_eq, Hof_eq_HX cx cy, Hof_eq_HY cx cy]
 
-/-- the normalised variation of information lies in `[0, 1]` (for `n ≥ 2`; for `n = 1` the code divides by `log 1 = 0`) -/
-theorem VIn_range (cx cy : Vector Int n) (hn : 2 ≤ n) : 0 ≤ VIn cx cy ∧ VIn cx cy ≤ 1 := by
-  have hpos : 0 < n := by omega
-  have hlog : 0 < Real.log n := Real.log_pos (by exact_mod_cast hn)
-  unfold VIn
-  rw [VI_eq]
+/-- un-normalised variation of information is zero exactly when the partitions coincide up to renaming -/
+theorem VI_eq_zero_iff_same (cx cy : Vector Int n) (hpos : 0 < n) :
+    2 * Hjoint cx cy - Hof cx - Hof cy = 0 ↔ samePart cx cy := by
+  rw [VI_eq, PartEntropy.VI_eq_zero_iff _ _ _ hpos, same_iff_labels]
   constructor
-  · exact div_nonneg (PartEntropy.VI_nonneg _ _ _ hpos) hlog.le
-  · rw [div_le_one hlog]
-    exact PartEntropy.VI_le_log _ _ _ hpos (total_eq cx cy)
-
-/-- zero variation of information exactly when the partitions coincide up to renaming -/
-theorem VIn_eq_zero_iff (cx cy : Vector Int n) (hn : 2 ≤ n) : VIn cx cy = 0 ↔ samePart cx cy := by
-  have hpos : 0 < n := by omega
-  have hlog : 0 < Real.log n := Real.log_pos (by exact_mod_cast hn)
-  unfold VIn
-  rw [div_eq_zero_iff, VI_eq, PartEntropy.VI_eq_zero_iff _ _ _ hpos, same_iff_labels]
-  constructor
-  · rintro (h | h)
-    · intro ℓ hℓ ℓ' hℓ'
-      rcases h ℓ hℓ ℓ' hℓ' with h0 | ⟨h1, h2⟩
-      · exact Or.inl h0
-      · right
-        rw [card_row cy, card_col cx (fun v => decide (cy[v] = ℓ'))]
-        exact ⟨h1, h2⟩
-    · exact absurd h hlog.ne'
-  · intro h
-    left
-    intro ℓ hℓ ℓ' hℓ'
+  · intro h ℓ hℓ ℓ' hℓ'
+    rcases h ℓ hℓ ℓ' hℓ' with h0 | ⟨h1, h2⟩
+    · exact Or.inl h0
+    · right
+      rw [card_row cy, card_col cx (fun v => decide (cy[v] = ℓ'))]
+      exact ⟨h1, h2⟩
+  · intro h ℓ hℓ ℓ' hℓ'
     rcases h ℓ hℓ ℓ' hℓ' with h0 | ⟨h1, h2⟩
     · exact Or.inl h0
     · right
       rw [card_row cy] at h1
       rw [card_col cx (fun v => decide (cy[v] = ℓ'))] at h2
       exact ⟨h1, h2⟩
+
+/-- on at most one node there is only one partition -/
+theorem samePart_of_le_one (cx cy : Vector Int n) (hn : ¬ 1 < n) : samePart cx cy := by
+  intro u v
+  have : u = v := Fin.ext (by have := u.isLt; have := v.isLt; omega)
+  subst this
+  exact ⟨fun _ => rfl, fun _ => rfl⟩
+
+/-- the normalised variation of information lies in `[0, 1]` — for every `n` (the code returns 0 for `n ≤ 1`) -/
+theorem VIn_range (cx cy : Vector Int n) : 0 ≤ VIn cx cy ∧ VIn cx cy ≤ 1 := by
+  unfold VIn
+  by_cases hn : 1 < n
+  · have hpos : 0 < n := by omega
+    have hlog : 0 < Real.log n := Real.log_pos (by exact_mod_cast hn)
+    rw [if_pos hn, VI_eq]
+    constructor
+    · exact div_nonneg (PartEntropy.VI_nonneg _ _ _ hpos) hlog.le
+    · rw [div_le_one hlog]
+      exact PartEntropy.VI_le_log _ _ _ hpos (total_eq cx cy)
+  · rw [if_neg hn]; exact ⟨le_refl 0, zero_le_one⟩
+
+/-- zero variation of information exactly when the partitions coincide up to renaming — for every `n` -/
+theorem VIn_eq_zero_iff (cx cy : Vector Int n) : VIn cx cy = 0 ↔ samePart cx cy := by
+  unfold VIn
+  by_cases hn : 1 < n
+  · have hpos : 0 < n := by omega
+    have hlog : 0 < Real.log n := Real.log_pos (by exact_mod_cast hn)
+    rw [if_pos hn, div_eq_zero_iff, ← VI_eq_zero_iff_same cx cy hpos]
+    constructor
+    · rintro (h | h)
+      · exact h
+      · exact absurd h hlog.ne'
+    · intro h; exact Or.inl h
+  · rw [if_neg hn]
+    exact ⟨fun _ => samePart_of_le_one cx cy hn, fun _ => rfl⟩
 
 /-- the entropy of a partition with at least two modules is positive -/
 theorem Hof_pos (c : Vector Int n) (hk : 2 ≤ numMods c) : 0 < Hof c := by
@@ -598,26 +619,40 @@ theorem Hof_nonneg (c : Vector Int n) : 0 ≤ Hof c := by
     rw [Fintype.card_fin] at this
     exact_mod_cast this
 
-/-- **`(VIn, MIn) = (0, 1)` exactly when the two partitions coincide up to renaming** — for `n ≥ 2` and unless both
-partitions are the single-module partition (there the code computes `MIn = 0/0`, recorded as a known finding) -/
-theorem pd_zero_one_iff (cx cy : Vector Int n) (hn : 2 ≤ n) (hk : 2 ≤ numMods cx ∨ 2 ≤ numMods cy) :
-    (VIn cx cy = 0 ∧ MIn cx cy = 1) ↔ samePart cx cy := by
-  have hH : 0 < Hof cx + Hof cy := by
-    rcases hk with h | h
-    · linarith [Hof_pos cx h, Hof_nonneg cy]
-    · linarith [Hof_pos cy h, Hof_nonneg cx]
-  have hlog : 0 < Real.log n := Real.log_pos (by exact_mod_cast hn)
+theorem f_small {N k : Nat} (hN : ¬ 1 < N) (hk : k ≤ N) : PartEntropy.f N k = 0 := by
+  unfold PartEntropy.f
+  have hN' : N = 0 ∨ N = 1 := by omega
+  rcases hN' with rfl | rfl
+  · simp
+  · have hk' : k = 0 ∨ k = 1 := by omega
+    rcases hk' with rfl | rfl <;> simp
+
+/-- on at most one node every entropy is zero -/
+theorem Hof_eq_zero_of_le_one (c : Vector Int n) (hn : ¬ 1 < n) : Hof c = 0 := by
+  unfold Hof sizeSum
+  rw [modSum_eq]
+  apply Finset.sum_eq_zero
+  intro ℓ _
+  apply f_small hn
+  rw [cardIn_eq]
+  have := Finset.card_le_univ (univ.filter fun v : Fin n => decide (c[v] = ℓ) = true)
+  rwa [Fintype.card_fin] at this
+
+/-- **`(VIn, MIn) = (0, 1)` exactly when the two partitions coincide up to renaming** — for every `n` and every pair of
+partitions (the guards `n > 1`, `Hx + Hy > 0` of the code make the single-module and single-node cases return `(0, 1)`) -/
+theorem pd_zero_one_iff (cx cy : Vector Int n) : (VIn cx cy = 0 ∧ MIn cx cy = 1) ↔ samePart cx cy := by
   constructor
-  · intro h; exact (VIn_eq_zero_iff cx cy hn).mp h.1
+  · intro h; exact (VIn_eq_zero_iff cx cy).mp h.1
   · intro h
-    have hv := (VIn_eq_zero_iff cx cy hn).mpr h
-    refine ⟨hv, ?_⟩
-    unfold VIn at hv
-    rcases div_eq_zero_iff.mp hv with h0 | h0
-    · unfold MIn
-      rw [div_eq_one_iff_eq hH.ne']
-      linarith
-    · exact absurd h0 hlog.ne'
+    refine ⟨(VIn_eq_zero_iff cx cy).mpr h, ?_⟩
+    unfold MIn
+    by_cases hn : 1 < n
+    · have h0 := (VI_eq_zero_iff_same cx cy (by omega)).mpr h
+      split_ifs with hH
+      · rw [div_eq_one_iff_eq hH.ne']; linarith
+      · rfl
+    · rw [Hof_eq_zero_of_le_one cx hn, Hof_eq_zero_of_le_one cy hn]
+      simp
 
 end
 
@@ -674,10 +709,15 @@ example : tableSum (fun k => k * k) (c1.map g7) (c2.map (· + 100)) = tableSum (
   tableSum_inv _ _ _ g7_inj shift_mono.injective
 example : samePart c1 (c1.map g7) := samePart_map c1 g7_inj
 example : ¬ samePart c1 c2 := by decide
-example : 0 ≤ VIn c1 c2 ∧ VIn c1 c2 ≤ 1 := VIn_range c1 c2 (by decide)
-example : VIn c1 c2 ≠ 0 := fun h => absurd ((VIn_eq_zero_iff c1 c2 (by decide)).mp h) (by decide)
+example : 0 ≤ VIn c1 c2 ∧ VIn c1 c2 ≤ 1 := VIn_range c1 c2
+example : VIn c1 c2 ≠ 0 := fun h => absurd ((VIn_eq_zero_iff c1 c2).mp h) (by decide)
 example : VIn c1 (c1.map g7) = 0 ∧ MIn c1 (c1.map g7) = 1 :=
-  (pd_zero_one_iff c1 (c1.map g7) (by decide) (Or.inl (by decide +kernel))).mpr (samePart_map c1 g7_inj)
+  (pd_zero_one_iff c1 (c1.map g7)).mpr (samePart_map c1 g7_inj)
+/-- both single-module (formerly `(0, nan)`) and a single node (formerly `(nan, nan)`) -/
+example : VIn (#v[7, 7, 7] : Vector Int 3) #v[2, 2, 2] = 0 ∧ MIn (#v[7, 7, 7] : Vector Int 3) #v[2, 2, 2] = 1 :=
+  (pd_zero_one_iff _ _).mpr (by decide)
+example : VIn (#v[7] : Vector Int 1) #v[2] = 0 ∧ MIn (#v[7] : Vector Int 1) #v[2] = 1 :=
+  (pd_zero_one_iff _ _).mpr (by decide)
 example : ci2ls c0 = [[3], [0, 1], [2]] := by decide +kernel
 example : ls2ci ((ci2ls c0).map (·.map Fin.val)) 1 = .ok [2, 2, 3, 1] := by
   rw [ls2ci_ci2ls]; decide +kernel
